@@ -161,17 +161,21 @@ func (e *Env) DeleteGlobal(symbol string) {
 
 // Addr returns reflect.Addr of value for first matching symbol found in current or parent scope.
 func (e *Env) Addr(symbol string) (reflect.Value, error) {
+	// the lock is released before the external lookup is called and before the parent is asked,
+	// like in GetValue: a lookup that uses the scope must not find it locked
 	e.rwMutex.RLock()
-	defer e.rwMutex.RUnlock()
+	v, ok := e.values[symbol]
+	externalLookup := e.externalLookup
+	e.rwMutex.RUnlock()
 
-	if v, ok := e.values[symbol]; ok {
+	if ok {
 		if v.CanAddr() {
 			return v.Addr(), nil
 		}
 		return NilValue, fmt.Errorf("unaddressable")
 	}
-	if e.externalLookup != nil {
-		v, err := e.externalLookup.Get(symbol)
+	if externalLookup != nil {
+		v, err := externalLookup.Get(symbol)
 		if err == nil {
 			if v.CanAddr() {
 				return v.Addr(), nil
